@@ -113,7 +113,9 @@ def register(db):
     db.add(Contract(
         f"{CONV}:QNameConverter.resolve", variant="any-str",
         params={"value": "str", "ns_map": NSMAP},
-        ensures=[], raises={"ConverterError": True},
+        ensures=[("a-non-blank-name-with-an-ncname-local-part-is-returned",
+                  "py_strip(value) != '' and uf('is_ncname', 'bool', result[1]) and not (' ' in result[1])")],
+        raises={"ConverterError": True},
         returns="tuple[str|None,str]", inline_calls=True, call_default=True,
         properties=["C15"],
     ))
